@@ -2097,7 +2097,7 @@ next_field(const char **p, size_t *l, const char **start,
 		(*p)++;
 		(*l)--;
 	}
-	*sep = **p;
+	*sep = (*l > 0) ? **p : '\0';
 
 	/* Handle in-field comments */
 	if (*sep == '#') {
@@ -2105,7 +2105,7 @@ next_field(const char **p, size_t *l, const char **start,
 			(*p)++;
 			(*l)--;
 		}
-		*sep = **p;
+		*sep = (*l > 0) ? **p : '\0';
 	}
 
 	/* Skip separator. */
